@@ -254,6 +254,23 @@ def pack_same_basename():
     return [f1, f2, f3], [dep], mods
 
 
+def pack_nested_module_names():
+    """Only *nested* messages use field names equal to the `proto` module / a sibling module; nothing at module level does."""
+    common = file('acme/wire/v1/common.proto', P, messages=[message('Shared', [field('s', 1, 'string')])],
+                  enums=[enum('SharedTone', 'SHARED_TONE_UNSPECIFIED', 'LOUD')])
+    msgs = [message('Outer3', [field('inner', 1, Q('Outer3.Inner')), field('inner2', 2, Q('Outer3.Inner2')), field('tag', 3, 'string')],
+                    nested=[message('Inner', [field('proto', 1, 'string'), field('after', 2, 'string'), field('n', 3, 'int32'),
+                                              field('deeper', 4, Q('Outer3.Inner.Deeper'))],
+                                    nested=[message('Deeper', [field('proto', 1, 'bool'), field('more', 2, 'string', repeated=True)])]),
+                            message('Inner2', [field('common', 1, 'string'), field('shared', 2, Q('Shared')),
+                                               field('tones', 3, 'enum:' + Q('SharedTone'), repeated=True)])])]
+    f = file('acme/wire/v1/nestednames.proto', P, messages=msgs)
+    std = desc.std_dep_names()
+    common.dependency.extend(std)
+    f.dependency.extend(std + [common.name])
+    return [common, f], []
+
+
 def negative_enum_pack():
     f = file('acme/wire/v1/neg.proto', P, enums=[enum('Signed', ('SIGNED_UNSPECIFIED', 0), ('MINUS', -1), ('PLUS', 1))],
              messages=[message('UsesSigned', [field('s', 1, 'enum:' + Q('Signed'))])])
@@ -281,6 +298,7 @@ def make_jobs(ctx, only=None):
     add('names', *pack_names())
     add('recursion', *pack_recursion())
     add('same-basename', *pack_same_basename())
+    add('nested-module-names', *pack_nested_module_names())
     add('negative-enum', *negative_enum_pack())
     add('keyword-enum-values', *keyword_enum_values_pack())
     files, deps, mods, cells = pack_refs(4)
